@@ -31,6 +31,25 @@ and that node to the innermost statement (or lambda) whose activity scope must l
 loads -> read, stores -> modified, deletes -> deleted. Compiler-synthesised accesses (comprehension
 save/restore, except-name cleanup, __class__ cells) have no AST node at their span and are skipped;
 reads/writes of comprehension iteration variables and `except ... as` names are exempt by the property.
+
+Oracle calibrations (each was a false alarm on the unchanged tree, triaged as over-reach):
+  * the analysed function must not be called `top`: symtable names the module block "top" and
+    Symbol.is_global()/is_local() treat every block of that name as the module block;
+  * a scope's own declared globals/nonlocals count as resolving outside it (malt keeps them in `bound`);
+  * names a descendant declares `global`: don't-care in the free sets above it;
+  * a def/lambda written inside a comprehension: the iteration variables are don't-care in its free set
+    and in those of the functions around it (property exemption; what CPython reports depends on inlining);
+  * CPython 3.12 artefact: the variable of an inlined comprehension becomes a local of the function and
+    captures same-named references of that function / of nested scopes (3.11 and the language resolve
+    them further out, and so does malt): such names are don't-care in the free sets of that function and above;
+  * bindings of an except-clause name inside its own handler share the except-name exemption;
+  * compiler-synthesised stores/deletes carry the span of a neighbouring node: an access is only demanded
+    when the AST node at its span has the matching context (Store/Del/Load);
+  * a walrus in the iterable of a `for` statement is demanded from the iterable's scope only.
+Degenerate shapes the generator never writes (they are unbound reads by construction): a comprehension
+clause reading the variable of a later generator, a later iterable reading its own generator's variable.
+CPython 3.12.1 delivers no opcode events in the first tracing session of a process: a throw-away session
+runs first (see _warm_session).
 """
 import ast
 import collections
@@ -67,6 +86,7 @@ ASSUMPTIONS = [
     'CPython 3.12 symtable is the reference; comprehension iteration variables (inlined into the enclosing table by 3.12) and except-clause names may be missing from malt\'s bound set (property exemption) but only when they have no other binding occurrence in the function',
     'malt vocabulary: params live on the scope of the `arguments` node; bound includes params and declared nonlocals by design, so locals = bound - globals - nonlocals - params and free = read - (bound - globals - nonlocals)',
     'names that a nested scope declares `global` are don\'t-care in the enclosing function\'s free set (CPython assigns them to the nested scope only)',
+    'iteration variables of comprehensions are don\'t-care in the free sets of defs/lambdas written inside the comprehension and of the functions around them; names that CPython 3.12 resolves to an inlined comprehension variable (3.11 and malt resolve them further out) are don\'t-care in the free sets of that function and above',
     'dynamic clause: only accesses that have an AST node at their exact source span are demanded; accesses to comprehension iteration variables and except-clause names are exempt; a lambda\'s accesses are matched against the lambda\'s own scope; the header of an except clause is matched against the enclosing function body scope (it has no scope of its own)',
     'a run that ends in an exception (unbound variable) is checked up to that point',
     'shapes of listed findings are excluded by construction (coverage.classes excluded:*)',
@@ -96,7 +116,7 @@ FILENAME = '<c08>'
 
 def budget(tier):
   if tier == 'thorough':
-    return {'programs': 100000, 'stmts': 34, 'max_scope_depth': 5, 'shrink_s': 60, 'wall_cap': 1150}
+    return {'programs': 60000, 'stmts': 34, 'max_scope_depth': 5, 'shrink_s': 60, 'wall_cap': 1150}
   return {'programs': 5000, 'stmts': 22, 'max_scope_depth': 4, 'shrink_s': 15, 'wall_cap': 300}
 
 
